@@ -40,6 +40,8 @@
             vec!["a", "a", "a__2", "a__2", "a__3", "a"],
             vec!["a__2__2", "a__2", "a__2", "a", "a"],
             vec!["", "", ""],
+            vec!["__cap", "__cap", "__cap"],
+            vec!["__r", "__r", "__r__2", "r", "r"],
             vec!["a_rather_long_name_for_a_row_of_a_small_model_0123456789", "a_rather_long_name_for_a_row_of_a_small_model_0123456789", "s", "s"],
             vec!["c1", "c2", "c1", "c2", "c1__2", "c2__2", "c1", "c2"],
         ]
